@@ -487,6 +487,9 @@ class Evaluator:
                 p.ret = base.attrs[e["m"]]
             elif name == "context.data_counter":
                 p.ret = Num("u16", p.env.get("$data_counter", p_var("DC")))
+            elif e["m"] == "source_position" and base.name.startswith("entry:"):
+                # the position recorded with an earlier definition (its own @L): keeps that identity through local variables
+                p.ret = Num("usize", p_var("@Ldef:source_position"))
             else:
                 p.ret = Obj(name)
         elif isinstance(base, Tup) and e["m"].isdigit() and int(e["m"]) < len(base.elems):
@@ -755,6 +758,11 @@ class Evaluator:
             q = p.fork()
             take = True
             tag = self.pat_tag(pat)
+            ent = getattr(scrut, "entry_of", None) if isinstance(scrut, Opt) else None
+            if ent is not None and tag in ("Occupied", "Vacant"):
+                tag = "Some" if tag == "Occupied" else "None"
+                if tag == "None" and pat["k"] == "tuple_struct" and pat.get("elems"):
+                    self.bind(pat["elems"][0], Obj("vacant:" + ent[0], {"key": ent[1], "key_desc": ent[2]}), q)
             if isinstance(scrut, Opt):
                 if tag == "Some":
                     if scrut.some is None or not remaining["some"]:
@@ -817,6 +825,8 @@ class Evaluator:
                     # `Variant{field: (a, b, c), other}`: every name bound by the pattern shadows an outer one
                     self.bind(pat, Top("struct-pattern"), q)
             ps = self.pat_str(pat)
+            if ent is not None:
+                ps = "Some(..)" if tag == "Some" else ("None" if tag == "None" else ps)
             if not take:
                 if arm.get("guard") is None:
                     earlier.append(ps)
@@ -827,7 +837,7 @@ class Evaluator:
                 ps = "_ [not " + " | ".join(earlier) + "]"
             elif arm.get("guard") is None:
                 earlier.append(ps)
-            q.conds.append((f"{desc} matches {ps}", True, line, None))
+            q.conds.append((f"{desc.replace('.entry(', '.get(') if ent is not None else desc} matches {ps}", True, line, None))
             body = arm["body"]
             # names bound by the pattern are visible in the arm only: restore what they shadowed afterwards
             names = self.pattern_names(pat)
@@ -1034,6 +1044,25 @@ class Evaluator:
             return [p]
         if rname in TRACKED and m in ("iter", "into_iter", "keys"):
             p.ret = Obj("iter:" + rname)
+            return [p]
+        if isinstance(recv, Obj) and recv.name.startswith("vacant:") and m == "insert":
+            # `Entry::Vacant(e) => e.insert(v)` is the map's insert(key, v) on the path where the key is known absent
+            tgt = recv.name[7:]
+            p.effects.append(Effect("map", line, target=tgt, op="insert", args=[recv.attrs.get("key")] + list(args), arg_descs=[recv.attrs.get("key_desc", "key")] + list(descs)))
+            p.ret = Top("inserted")
+            return [p]
+        if isinstance(recv, Obj) and recv.name.startswith("entry:") and m in ("get", "get_mut", "into_mut"):
+            p.ret = recv
+            return [p]
+        if isinstance(recv, Obj) and (recv.name.startswith("entry:") or recv.name.startswith("vacant:")) and m == "key":
+            p.ret = recv.attrs.get("key") or Top("key")
+            return [p]
+        if rname in TRACKED and m == "entry":
+            # the entry API: `match map.entry(k) { Occupied(e) => .., Vacant(e) => .. }` is `match map.get(&k) { Some(e) => .., None => .. }`
+            p.effects.append(Effect("map", line, target=rname, op="get", args=args, arg_descs=descs))
+            o = Opt(Obj("entry:" + rname, {"map": Num("usize", p_var("label.map")), "key": args[0] if args else None}), True)
+            o.entry_of = (rname, args[0] if args else None, descs[0] if descs else "key")
+            p.ret = o
             return [p]
         if rname in TRACKED:
             p.effects.append(Effect("map", line, target=rname, op=m, args=args, arg_descs=descs))
